@@ -229,7 +229,17 @@ fn judge(case: &Case, obs: &Obs) -> (Vec<Violation>, BTreeMap<String, u64>, bool
         };
         bump("routes_checked", 1);
         let (rec_a, rec_b) = &recs[name];
-        let cap = vc.battery_kwh;
+        // the electric energy feature is kept in the unit the battery capacity is configured in: the model's
+        // kWh are converted with the repository's own factor; the capacity likewise (see world.rs)
+        let e_factor = match vc.battery_unit.as_deref() {
+            Some("gallons_gasoline") => 0.031,
+            Some("gallons_diesel") => 0.02457,
+            _ => 1.0,
+        };
+        if vc.kind != "ice" && e_factor != 1.0 {
+            bump("routes_with_battery_in_gallons", 1);
+        }
+        let cap = vc.battery_kwh * e_factor;
         let mut prev: Vec<f64> = {
             // initial state: zeros, except the state of charge
             let n = sm.as_object().map(|m| m.len()).unwrap_or(0);
@@ -308,10 +318,10 @@ fn judge(case: &Case, obs: &Obs) -> (Vec<Violation>, BTreeMap<String, u64>, bool
                     }
                 }
                 "bev" => {
-                    let (want, _) = predict(rec_a, w, &units, e, speed).unwrap_or((f64::NAN, EnergyUnit::KilowattHours));
+                    let (want, _) = predict(rec_a, w, &units, e, speed).map(|(x, u)| (x * e_factor, u)).unwrap_or((f64::NAN, EnergyUnit::KilowattHours));
                     let got = d("energy_electric").unwrap_or(f64::NAN);
                     if !close_abs(got, want) {
-                        v.push(Violation { class: "edge-energy".into(), detail: format!("{} edge {}: recorded electric energy {} but the model gives {} (speed {} grade {} length {})", name, e, got, want, w.speeds[e], w.grades[e], w.edges[e].2) });
+                        v.push(Violation { class: "edge-energy".into(), detail: format!("{} edge {}: recorded electric energy {} but the model gives {} in the feature's unit (speed {} grade {} length {}; accumulated so far {})", name, e, got, want, w.speeds[e], w.grades[e], w.edges[e].2, idx("energy_electric").map(|i| prev[i]).unwrap_or(f64::NAN)) });
                     }
                     if want < 0.0 {
                         bump("regeneration_edges", 1);
@@ -330,7 +340,7 @@ fn judge(case: &Case, obs: &Obs) -> (Vec<Violation>, BTreeMap<String, u64>, bool
                                 v.push(Violation { class: "phev-switch".into(), detail: format!("{} edge {}: entered with {}% charge but drew only liquid fuel ({})", name, e, entry, dl) });
                             }
                         } else {
-                            let (want, _) = predict(rec_a, w, &units, e, speed).unwrap_or((f64::NAN, EnergyUnit::KilowattHours));
+                            let (want, _) = predict(rec_a, w, &units, e, speed).map(|(x, u)| (x * e_factor, u)).unwrap_or((f64::NAN, EnergyUnit::KilowattHours));
                             let full_soc_use = want / cap * 100.0;
                             if full_soc_use <= entry && !close_abs(de, want) {
                                 v.push(Violation { class: "edge-energy".into(), detail: format!("{} edge {}: recorded electric energy {} but the charge-depleting model gives {}", name, e, de, want) });
